@@ -191,6 +191,7 @@ Record msummary := mkSummary {
   m_tails : list (string * list string); (* (g, ms): after its last write of member g the body still uses the members ms
                                             (later accesses, locks held at that write and released afterwards) *)
   m_taillocks : list (string * list string); (* (g, ms): the locks held at the last write of g, released afterwards *)
+  m_uses : list string;                  (* every member the method uses off the loop thread, through its calls too *)
   m_postargs : list postarg;
   m_regargs : list regarg;
   m_dtor : option dtorinfo }.
@@ -435,7 +436,7 @@ Fixpoint assoc_tail (g : string) (l : list (string * list string)) : list string
   end.
 
 Definition thread_uses (t : msummary) : list string :=
-  map a_field (m_accesses t) ++ flat_map a_locks (m_accesses t).
+  m_uses t ++ map a_field (m_accesses t) ++ flat_map a_locks (m_accesses t).
 
 (* does the object's own thread write member g (in its entry function)? *)
 Definition thread_writes (thr : list msummary) (g : string) : bool :=
